@@ -21,11 +21,16 @@ def record(ctx, name, test="TestVerifSys", rounds=None, tags="verif", env=None, 
 
 def validate(ctx, trace, specs, what):
     """Run the given trace specifications over one recorded trace; property-check failures become violations."""
-    truncated = False
+    if any(v["sig"].endswith("/crash") for v in ctx.violations):
+        ctx.notes.append("the harness process crashed inside the code under test: its (incomplete) trace was not validated")
+        return
+    truncated, line = False, ""
     with open(trace) as f:
         for line in f:
             pass
         truncated = '"Truncated"' in line
+    if not line:
+        raise vlib.MachineryError("the harness recorded an empty trace (%s)" % what)
     for spec in specs:
         r = vlib.validate_trace(ctx, spec, spec + ".cfg", trace, name="%s-%s" % (spec, what), timeout=1500, heap="12g", linear=True)
         if r["viols"]:
